@@ -127,7 +127,9 @@ CLAIMED = {
          "facts by kernel evaluation: every PAC addresses row 1-15 / column 0,4..28, all 15x8 addresses exist, tab offsets are 1..3, the code tables are "
          "pairwise disjoint; in EVERY reader state the second copy of a doubled control code / preamble / special character changes nothing but the doubling "
          "memory and the frame count (second_copy_dropped) and a control code sent twice after a character word acts exactly once "
-         "(doubled_control_counts_once). The model agrees with the implementation on exhaustive PAC x tab-offset x doubling and per-code programs and on random rich "
+         "(doubled_control_counts_once); a whole caption as the writer lays it out (1-15 non-empty rows of basic characters on consecutive screen rows) "
+         "leaves in the queue ONE buffer with exactly one text node per row, break nodes between them, no style or repositioning node, every node at "
+         "(row 16-n, column 0) (written_caption_exact: preamble -> position tracker -> add_chars, exactly). The model agrees with the implementation on exhaustive PAC x tab-offset x doubling and per-code programs and on random rich "
          "pop-on programs; the implementation is compared with a reference CEA-608 screen reading built from the standard's formulas."),
    ref="§3 C05", technique="Lean 4 proof (pass invariants, decide +kernel over generated tables, linarith) + state-machine correspondence + reference decoder oracle",
    note=NOTE_COMMON + "The refinement theorem decode_encode (model = reference reading for every program) is NOT proved: that link is the differential comparison. "
